@@ -200,6 +200,23 @@ fn c12_slit_diagonal_and_mirrored_assignments() {
         }
     }
 }
+/// C12: a SLIT whose row offsets exceed 16 bits (more than 256 localities)
+#[test]
+fn c12_slit_large_matrix() {
+    use acpi_tables::slit::*;
+    let n = 300usize;
+    let mut t = SLIT::new(*b"FOOBAR", *b"DECAFCOF", 1, n as u32);
+    let mut model = vec![10u8; n * n];
+    for (a, b, v) in [(0usize, 299usize, 77u8), (299, 0, 78), (150, 299, 79), (299, 299, 80), (255, 256, 81), (256, 255, 82), (218, 136, 83), (1, 1, 84)] {
+        t.set_distance(a, b, v);
+        model[a + n * b] = v; model[b + n * a] = v;
+        let img = ser(&t);
+        check_table(&format!("SLIT n=300 after set_distance({},{},{})", a, b, v), &img);
+        assert_eq!(img.len(), 44 + n * n);
+        let bad: Vec<usize> = (0..n * n).filter(|k| img[44 + k] != model[*k]).take(4).collect();
+        assert!(bad.is_empty(), "SLIT n=300 after set_distance({},{},{}): cells {:?} (row, col = {:?}) differ from the last value assigned", a, b, v, bad, bad.iter().map(|k| (k / n, k % n)).collect::<Vec<_>>());
+    }
+}
 #[test]
 fn c18_slit_oversize_locality_count_refused() {
     use acpi_tables::slit::*;
@@ -257,6 +274,20 @@ fn c18_rimt_oversize_devices_refused() {
     let r = refuses(|| ser(&Platform::new(1, "n".repeat(65536), None)));
     if let Err(b) = r {
         panic!("platform device of {} bytes returned with length field {}", b.len(), le16_at(&b, 2));
+    }
+    // ID-mapping counts at the field maximum, one above, and where a 16-bit count wraps to a small number
+    let io = { let mut t = RIMT::new(*b"FOOBAR", *b"DECAFCOF", 1); t.add_iommu(Iommu::new(0, None, None, None, None)) };
+    for n in [3275usize, 3276, 3277, 65535, 65536, 65537, 65536 + 3275, 131072 + 1] {
+        let maps = |k: usize| -> Vec<IdMapping> { (0..k).map(|i| IdMapping::new(i as u32, i as u32, 1, io, false, false, false)).collect() };
+        for which in 0..2 {
+            let m = maps(n);
+            let r = catch_unwind(AssertUnwindSafe(|| if which == 0 { ser(&PcieRootComplex::new(1, 0, false, false, Some(m))) } else { ser(&Platform::new(1, "p".to_string(), Some(m))) }));
+            if let Ok(b) = r {
+                assert_eq!(le16_at(&b, 2) as usize, b.len(), "{} with {} ID mappings: Length field vs {} bytes emitted", if which == 0 { "root complex" } else { "platform device" }, n, b.len());
+                let cnt_at = if which == 0 { 14 } else { 10 };
+                assert_eq!(le16_at(&b, cnt_at) as usize, n, "{} with {} ID mappings: count field", if which == 0 { "root complex" } else { "platform device" }, n);
+            }
+        }
     }
 }
 
@@ -522,6 +553,19 @@ fn c17_checksum_accumulator_reference() {
             assert_eq!((c.raw_value() as u32 + c.value() as u32) % 256, 0, "value()");
         }
     }
+    // removal as the very first operation on a fresh accumulator
+    for b in [1u8, 2, 0x7f, 0x80, 0xff] {
+        let mut c = Checksum::default();
+        c.sub(b);
+        assert_eq!(c.raw_value(), 0u8.wrapping_sub(b), "sub({}) on a fresh accumulator", b);
+        assert_eq!((c.raw_value() as u32 + c.value() as u32) % 256, 0);
+        let mut d = Checksum::default();
+        d.delete(&[b, 1, 2]);
+        assert_eq!(d.raw_value(), 0u8.wrapping_sub(b).wrapping_sub(3), "delete on a fresh accumulator");
+        d.append(&[b, 1, 2]);
+        assert_eq!(d.raw_value(), 0, "append undoes delete");
+        assert_eq!(d.value(), 0);
+    }
     for len in [0usize, 1, 2, 255, 256, 257, 515, 516, 517, 1024, 4099, 70000] {
         for fill in [0u8, 1, 0x80, 0xff] {
             let data: Vec<u8> = (0..len).map(|i| if i % 3 == 0 { fill } else { fill.wrapping_add(i as u8) }).collect();
@@ -675,6 +719,63 @@ fn c07_pkg_length_framing_at_boundaries() {
         }
     }
 }
+/// C06/C07: every length-delimited container, with name paths of 1..4 segments (rooted or not) and
+/// children that reach the sink through each of its entry points (byte, word, dword, qword, vec):
+/// the PkgLength covers exactly the object, the name is the reference NameString, and the children
+/// follow in order, the last one ending the object
+#[test]
+fn c06_containers_names_and_wide_constants() {
+    let q1 = 0x1_0000_0000u64;
+    let q2 = 0x1234_5678_9abc_def0u64;
+    let d = 0xdead_beefu32;
+    let w = 0x1234u16;
+    let by = 0x7fu8;
+    let st = "txt";
+    let ret = Return::new(&q2);
+    let kids: Vec<&dyn Aml> = vec![&by, &w, &d, &q1, &st, &ret, &q2];
+    let mut tail: Vec<u8> = Vec::new();
+    for k in &kids { tail.extend_from_slice(&ser(*k)); }
+    assert_eq!(ser(&q1), vec![0x0e, 0, 0, 0, 0, 1, 0, 0, 0]);
+    assert_eq!(ser(&ret), [&[0xa4u8][..], &ser(&q2)[..]].concat());
+    for nseg in 1..=4usize {
+        for rooted in [false, true] {
+            let segs: Vec<String> = (0..nseg).map(|i| ["_SB_", "PCI0", "LPCB", "EC0_"][i].to_string()).collect();
+            let pstr = format!("{}{}", if rooted { "\\" } else { "" }, segs.join("."));
+            let name = ref_name(rooted, &segs);
+            let check = |what: &str, b: Vec<u8>, op: &[u8], after_name: &[u8]| {
+                assert_eq!(&b[..op.len()], op, "{} opcode", what);
+                let (len, pw) = pkg_decode(&b[op.len()..]);
+                assert_eq!(len, b.len() - op.len(), "{} {:?}: PkgLength decodes to {}, object spans {}", what, pstr, len, b.len() - op.len());
+                let mut o = op.len() + pw;
+                assert_eq!(&b[o..o + name.len()], &name[..], "{} {:?}: NameString", what, pstr); o += name.len();
+                assert_eq!(&b[o..o + after_name.len()], after_name, "{} {:?}: fixed fields after the name", what, pstr); o += after_name.len();
+                assert_eq!(&b[o..], &tail[..], "{} {:?}: children in order, ending the object", what, pstr);
+            };
+            check("Device", ser(&Device::new(pstr.as_str().into(), kids.clone())), &[0x5b, 0x82], &[]);
+            check("Scope", ser(&Scope::new(pstr.as_str().into(), kids.clone())), &[0x10], &[]);
+            check("Method", ser(&Method::new(pstr.as_str().into(), 3, true, kids.clone())), &[0x14], &[0x0b]);
+            check("PowerResource", ser(&PowerResource::new(pstr.as_str().into(), 2, 0x0304, kids.clone())), &[0x5b, 0x84], &[2, 4, 3]);
+        }
+    }
+    // containers without a name
+    let b = ser(&Package::new(kids.clone()));
+    let (len, pw) = pkg_decode(&b[1..]);
+    assert_eq!((b[0], len, b[1 + pw]), (0x12, b.len() - 1, kids.len() as u8)); assert_eq!(&b[2 + pw..], &tail[..], "Package elements");
+    let mut pb = PackageBuilder::new();
+    for k in &kids { pb.add_element(*k); }
+    assert_eq!(ser(&pb), b, "PackageBuilder == Package");
+    let mut pd = PackageBuilder::default();
+    for k in &kids { pd.add_element(*k); }
+    assert_eq!(ser(&pd), b, "PackageBuilder::default() == PackageBuilder::new()");
+    assert_eq!(ser(&PackageBuilder::default()), vec![0x12, 0x02, 0x00], "empty default package builder");
+    let one = 1u8;
+    let b = ser(&If::new(&one, kids.clone()));
+    let (len, pw) = pkg_decode(&b[1..]);
+    assert_eq!((b[0], len, b[1 + pw]), (0xa0, b.len() - 1, 0x01)); assert_eq!(&b[2 + pw..], &tail[..], "If body");
+    let b = ser(&While::new(&one, kids.clone()));
+    let (len, pw) = pkg_decode(&b[1..]);
+    assert_eq!((b[0], len, b[1 + pw]), (0xa2, b.len() - 1, 0x01)); assert_eq!(&b[2 + pw..], &tail[..], "While body");
+}
 /// C07/C06: field lists -- every Named/Reserved width (exclusive PkgLength form) at the width
 /// boundaries, parsed back entry by entry; the Field's own PkgLength covers exactly the list
 #[test]
@@ -810,12 +911,15 @@ fn c10_resource_templates_reference() {
     {
         use acpi_tables::gas::{AccessSize, AddressSpace as Sp, GAS};
         use zerocopy::IntoBytes;
-        let sizes = [AccessSize::Undefined, AccessSize::ByteAccess, AccessSize::WordAccess, AccessSize::DwordAccess, AccessSize::QwordAccess];
-        for (i, sp) in [Sp::SystemMemory, Sp::SystemIo, Sp::PciConfigSpace, Sp::EmbeddedController, Sp::FunctionalFixedHardware].into_iter().enumerate() {
-            for (j, sz) in sizes.into_iter().enumerate() {
+        // codes from ACPI 6.5 table 5.1 (address space IDs, access sizes), not from the crate's enums
+        let sizes = [(AccessSize::Undefined, 0u8), (AccessSize::ByteAccess, 1), (AccessSize::WordAccess, 2), (AccessSize::DwordAccess, 3), (AccessSize::QwordAccess, 4)];
+        let spaces = [(Sp::SystemMemory, 0u8), (Sp::SystemIo, 1), (Sp::PciConfigSpace, 2), (Sp::EmbeddedController, 3), (Sp::Smbus, 4), (Sp::SystemCmos, 5), (Sp::PciBarTarget, 6),
+                      (Sp::Ipmi, 7), (Sp::GeneralPursposeIo, 8), (Sp::GenericSerialBus, 9), (Sp::PlatformCommunicationsChannel, 0x0a), (Sp::PlatformRuntimeMechanism, 0x0b), (Sp::FunctionalFixedHardware, 0x7f)];
+        for (i, (sp, sp_code)) in spaces.into_iter().enumerate() {
+            for (j, (sz, sz_code)) in sizes.into_iter().enumerate() {
                 let (width, off, addr) = ((8 << (i % 4)) as u8, (j * 5 + i) as u8, 0x0102_0304_0506_0708u64.rotate_left((8 * (i + j)) as u32));
                 let g = GAS::new(sp, width, off, sz, addr);
-                let mut want = vec![sp as u8, width, off, sz as u8];
+                let mut want = vec![sp_code, width, off, sz_code];
                 want.extend_from_slice(&addr.to_le_bytes());
                 assert_eq!(ser(&g), want, "GAS serialised field order (space, width, offset, access size, address)");
                 assert_eq!(g.as_bytes(), &want[..], "GAS raw form");
@@ -870,6 +974,22 @@ fn c16_eisa_and_uuid_reference() {
             let r = catch_unwind(AssertUnwindSafe(|| ser(&Uuid::new(&s))));
             assert!(r.is_err(), "malformed UUID {:?} was accepted", s);
         }
+    }
+    // separators moved by one place (still four '-' and 32 hex digits), doubled, or dropped
+    for dash in [8usize, 13, 18, 23] {
+        for other in [dash - 1, dash + 1] {
+            let mut cs: Vec<char> = u.chars().collect();
+            cs.swap(dash, other);
+            let s: String = cs.into_iter().collect();
+            assert!(catch_unwind(AssertUnwindSafe(|| ser(&Uuid::new(&s)))).is_err(), "UUID with a misplaced separator {:?} was accepted", s);
+        }
+    }
+    for s in ["33DB4D5B--1FF7401C-9657-7441C03DD766", "33DB4D5B1FF7-401C-9657-7441C03DD766-", "-33DB4D5B-1FF7-401C-96577441C03DD766", "33DB4D5B-1FF7-401C-9657-7441C03DD76", "33DB4D5B-1FF7-401C-9657-7441C03DD7666"] {
+        assert!(catch_unwind(AssertUnwindSafe(|| ser(&Uuid::new(s)))).is_err(), "malformed UUID {:?} was accepted", s);
+    }
+    // EISA ids: a non-hex product character or a short / long string is refused, never repaired
+    for bad in ["PNPG501", "PNP05G1", "PNP050G", "PNP 501", "PNP+501", "PNP05-1"] {
+        assert!(catch_unwind(AssertUnwindSafe(|| ser(&EISAName::new(bad)))).is_err(), "EISA id {:?} was accepted", bad);
     }
     for s in ["", "PNP", "PNP0A0", "PNP0A033", "pnp0a03"] {
         if s.len() == 7 { continue; }
@@ -1435,13 +1555,21 @@ fn c05_handles_are_offsets_of_their_nodes() {
     t.add_hart_info(rhct::HartInfoNode::new(4, &i3));
     let c2 = t.add_cmo(rhct::CmoNode::new(5, 6, 7));
     t.add_hart_info(rhct::HartInfoNode::new(5, &i3).with_cmo(&c2));
+    // the same ISA string added again is a node of its own, and its handle names that node
+    let i3b = t.add_isa_string("rv64imafdcv");
+    let c3 = t.add_cmo(rhct::CmoNode::new(8, 9, 10));
+    t.add_hart_info(rhct::HartInfoNode::new(6, &i3b).with_cmo(&c3));
+    let isa_dup_at = { let img = ser(&t); let es0 = walk("RHCT", &img, 56, 2, 2, 8); es0[es0.len() - 3].0 };   // the node added by the second add_isa_string
+    // two CMO references on one hart: both appear, in order
+    t.add_hart_info(rhct::HartInfoNode::new(7, &i0).with_cmo(&c0).with_cmo(&c3));
     let b = ser(&t);
     check_table("RHCT (handles)", &b);
     let es = walk("RHCT", &b, 56, 2, 2, 8);
     let starts: Vec<usize> = es.iter().map(|(o, _)| *o).collect();
     // each hart's references resolve to *its own* ISA string / CMO node, not merely to some node
-    let want: [(u32, &str, Option<[u8; 3]>); 6] = [(0, "rv64i", None), (1, "rv64imafdc_zicbom_zicboz", Some([1, 1, 1])), (2, "rv64i", Some([1, 1, 1])),
-                                                   (3, "rv64imafdc", Some([2, 3, 4])), (4, "rv64imafdcv", None), (5, "rv64imafdcv", Some([5, 6, 7]))];
+    let want: [(u32, &str, Option<[u8; 3]>); 8] = [(0, "rv64i", None), (1, "rv64imafdc_zicbom_zicboz", Some([1, 1, 1])), (2, "rv64i", Some([1, 1, 1])),
+                                                   (3, "rv64imafdc", Some([2, 3, 4])), (4, "rv64imafdcv", None), (5, "rv64imafdcv", Some([5, 6, 7])),
+                                                   (6, "rv64imafdcv", Some([8, 9, 10])), (7, "rv64i", Some([1, 1, 1]))];
     let mut harts = 0;
     for (o, _) in &es {
         if le16_at(&b, *o) != 65535 { continue; }
@@ -1451,14 +1579,21 @@ fn c05_handles_are_offsets_of_their_nodes() {
         assert!(r + 8 + isa.len() <= b.len() && le16_at(&b, r) == 0, "hart {}: ISA offset {} is not an ISA string node", uid, r);
         assert_eq!(le16_at(&b, r + 6) as usize, isa.len() + 1, "hart {}: ISA offset {} names a different ISA node", uid, r);
         assert_eq!(&b[r + 8..r + 8 + isa.len()], isa.as_bytes(), "hart {}: ISA offset {} names a different ISA node", uid, r);
+        if uid == 6 { assert_eq!(r, isa_dup_at, "hart 6 was built from the handle of the second \"rv64imafdcv\" node (at {}), the image references {}", isa_dup_at, r); }
+        if uid == 7 {
+            assert_eq!(le16_at(&b, o + 6), 3, "hart 7: ISA offset + two CMO offsets");
+            let r2 = le32_at(&b, o + 20) as usize;
+            assert!(r2 + 10 <= b.len() && le16_at(&b, r2) == 1 && b[r2 + 7..r2 + 10] == [8, 9, 10], "hart 7: second CMO offset {} is not the (8, 9, 10) CMO node", r2);
+        } else {
         assert_eq!(le16_at(&b, o + 6) as usize, 1 + cmo.is_some() as usize, "hart {}: number of offsets", uid);
+        }
         if let Some(c) = cmo {
             let r = le32_at(&b, o + 16) as usize;
             assert!(r + 10 <= b.len() && le16_at(&b, r) == 1, "hart {}: CMO offset {} is not a CMO node", uid, r);
             assert_eq!(&b[r + 7..r + 10], &c[..], "hart {}: CMO offset {} names a different CMO node", uid, r);
         }
     }
-    assert_eq!(harts, 6);
+    assert_eq!(harts, 8);
     for (o, _) in &es { if le16_at(&b, *o) == 65535 { let n = le16_at(&b, o + 6) as usize; for k in 0..n { let r = le32_at(&b, o + 12 + 4 * k) as usize; assert!(starts.contains(&r), "hart info at {}: offset {} is not the start of a node", o, r); assert_eq!(le16_at(&b, r), if k == 0 { 0 } else { 1 }, "hart info at {}: offset {} has the wrong node type", o, r); } } }
     let mut t = rimt::RIMT::new(OEM, TBL, 1);
     t.add_platform(rimt::Platform::new(1, "a".to_string(), None));
@@ -1536,7 +1671,12 @@ fn c11_option_builders_are_independent() {
     };
     for mask in 0..128u32 { for order in &orders {
         let mut s = tpm2::TpmServer1_2::new(OEM, TBL, 1);
-        for o in order.iter().copied() { if mask & (1 << o) != 0 { s = match o { 0 => s.edge_triggered(), 1 => s.active_low(), 2 => s.sci_gpe(9), 3 => s.gsi(0x55), 4 => s.pci_sbdf(1, 2, 3, 4), 5 => s.bus_is_pnp(), _ => s.config_addr(gas::GAS::new(gas::AddressSpace::SystemIo, 8, 0, gas::AccessSize::ByteAccess, 0x4e)) }; } }
+        for o in order.iter().copied() { if mask & (1 << o) != 0 {
+            s = match o { 0 => s.edge_triggered(), 1 => s.active_low(), 2 => s.sci_gpe(9), 3 => s.gsi(0x55), 4 => s.pci_sbdf(1, 2, 3, 4), 5 => s.bus_is_pnp(), _ => s.config_addr(gas::GAS::new(gas::AddressSpace::SystemIo, 8, 0, gas::AccessSize::ByteAccess, 0x4e)) };
+            let img = ser(&s);
+            assert_eq!(bsum(&img), 0, "TCPA server sums to 0 after every builder call (option {} of order {:?}, option set {:#b})", o, order, mask);
+            assert_eq!(le32_at(&img, 4) as usize, img.len());
+        } }
         let b = ser(&s);
         check_table("TCPA server", &b);
         assert_eq!(b[59] as u32, mask & 0xf, "interrupt flags for option set {:#b} applied in order {:?}", mask, order); assert_eq!(b[58] as u32, (mask >> 4) & 7, "device flags for option set {:#b} applied in order {:?}", mask, order);
@@ -1544,6 +1684,15 @@ fn c11_option_builders_are_independent() {
     } }
     // FADT flags
     use fadt::Flags as F;
+    // every flag of the FADT Flags field (ACPI 6.5 table 5.10), bit number from the specification
+    let every = [(F::Wbinvd, 0), (F::WbinvdFlush, 1), (F::ProcC1, 2), (F::PLvl2Up, 3), (F::PwrButton, 4), (F::SlpButton, 5), (F::FixRtc, 6), (F::RtcS4, 7), (F::TmrValExt, 8), (F::DckCap, 9),
+                 (F::ResetRegSup, 10), (F::SealedCase, 11), (F::Headless, 12), (F::CpuSwSlp, 13), (F::PciExpWak, 14), (F::UsePlatformClock, 15), (F::S4RtcStsValid, 16), (F::RemotePowerOnCapable, 17),
+                 (F::ForceApicClusterModel, 18), (F::ForceApicPhysicalDestinationMode, 19), (F::HwReducedAcpi, 20), (F::LowPowerS0IdleCapable, 21), (F::PersistentCpuCachesNotPersistent, 22), (F::PersistentCpuCachesArePersistent, 23)];
+    for i in 0..every.len() { for j in 0..every.len() {
+        let b = ser(&fadt::FADTBuilder::new(OEM, TBL, 1).flag(every[i].0).flag(every[j].0).finalize());
+        assert_eq!(le32_at(&b, 112), (1u32 << every[i].1) | (1 << every[j].1), "FADT flags {:?} then {:?}", every[i].0, every[j].0);
+        check_table("FADT", &b);
+    } }
     let all = [(F::Wbinvd, 0), (F::PwrButton, 4), (F::ResetRegSup, 10), (F::HwReducedAcpi, 20), (F::LowPowerS0IdleCapable, 21), (F::PersistentCpuCachesNotPersistent, 22), (F::PersistentCpuCachesArePersistent, 23)];
     for i in 0..all.len() { for j in 0..all.len() {
         let b = ser(&fadt::FADTBuilder::new(OEM, TBL, 1).flag(all[i].0).flag(all[j].0).finalize());
